@@ -626,6 +626,9 @@ def run_c12(tmp, tier, rnd):
         # a non-UTF-8 (Latin-1) source with a long function, and a malformed one
         (root / "latin.py").write_bytes(("# caf\xe9\n" + body("py", "latin", 40)).encode("latin-1"))
         (root / "broken.js").write_text("function f( {\n" + "x;\n" * 40)
+        # long functions carrying the suppression marker: scan and check must agree on them too
+        (root / "marked.py").write_text(body("py", "hidden", 40).replace("():", "():  # nocl", 1) + body("py", "shown", 41))
+        (root / "marked.js").write_text(body("js", "hidden", 40).replace(") {", ") { // nocl", 1) + body("js", "shown", 41))
         # functions just over the threshold in files without a final newline (31 lines, 30 newline characters)
         (root / "edge31.py").write_text(body("py", "edge", 31).rstrip("\n"))
         (root / "edge31.js").write_text(body("js", "edge", 31).rstrip("\n"))
